@@ -394,9 +394,16 @@ func runWorker(spec *Spec, tier, ws string, body func(w *W)) {
 	}
 	resPath := os.Getenv("VERIF_RESULT")
 	w := newW(spec, tier, shard, n, filepath.Dir(resPath))
+	finished := false
 	flush := func(done bool) {
 		w.mu.Lock()
 		defer w.mu.Unlock()
+		// (the periodic partial flush may fire once more after the final one: it must not
+		// overwrite the final result with done=false)
+		if finished {
+			return
+		}
+		finished = done
 		res := workerResult{Evals: w.evals, DistinctN: w.distinctN, Classes: w.classes, Metrics: w.metrics,
 			Samples: w.samples, Violations: w.violations, Exhaustive: w.exhaustive, Notes: w.notes, Done: done}
 		b, err := json.Marshal(res)
